@@ -103,7 +103,7 @@ type parserExec struct {
 	readsAfterShrink              int
 	contentChanges                int
 
-	excludedD18                                  int
+	excludedD18, excludedD22                     int
 	c11Blocks, c11MLM, c11Mixed, c11AfterRebuild int
 	c12Matches, c12AfterRebuild, c12AfterCut     int
 	runBlocks, runBlocksAfterShrink              int
